@@ -21,16 +21,36 @@ RULE = (
     "layout sub-check: every gap layout (string over {residue, gap}) up to the tier's length bound is enumerated "
     "and, per layout, every in-range alignment interval (start/stop in 0..L and their negative/None spellings), every "
     "column and every residue index is compared with the string model (evaluations = number of individual "
-    "comparisons); longer layouts, pairs of layouts for the binary operations and feature maps are generated with "
-    "Hypothesis. Non-trivial = a (layout, interval) pair whose start or stop lies strictly inside or exactly at the "
-    "edge of a gap run on a layout with >= 2 gap runs (counted as distinct (layout,start,stop) triples), or a binary/"
-    "feature-map case with >= 2 gap runs / >= 2 spans."
+    "comparisons); the accessors and index conversions are compared on the map of every construction route, and each "
+    "route's map re-enters merge_maps; longer layouts, pairs of layouts for the binary operations, feature maps and "
+    "histories are generated with Hypothesis. featuremap sub-check: spans may be reversed (a reversed span denotes its "
+    "parent positions downwards) or lost; the map is indexed by a slice, a list of slices, a tuple of spans, an "
+    "integer (incl. negative) and an inner FeatureMap made of forward, reversed and lost spans, and the result is "
+    "compared with the composition of the two index lists; histories of up to 3 operations feed every result into the "
+    "next operation and compare after each. history sub-check: 2-5 operations starting from an IndelMap (slice, "
+    "integer index, joined segments, concatenation on either side, scaling, reversal, merge, minus, JSON / from_spans "
+    "round trips), optionally converted by to_feature_map / make_seq_feature_map and continued with feature-map "
+    "operations (inverse, slice, composition ...); after every step the result is rendered and answers every accessor "
+    "like the map of the transformed string. Non-trivial = a (layout, interval) pair whose start or stop lies strictly "
+    "inside or exactly at the edge of a gap run on a layout with >= 2 gap runs (counted as distinct "
+    "(layout,start,stop) triples), a binary/feature-map case with >= 2 gap runs / >= 2 spans, or a history of >= 2 "
+    "applied steps on a layout with a gap."
 )
 ASSUMPTIONS = [
     "slice intervals are in range (-len <= a,b <= len): IndelMap documents IndexError for out-of-range negatives and does not clamp large stops; strides raise NotImplementedError by design",
     "joined_segments is driven with sorted, non-overlapping, non-empty in-range segments (what Aligned slicing by a feature passes)",
     "FeatureMap.inverse is only required to work on non-overlapping maps (it documents ValueError for overlaps)",
     "IndelMap.get_coordinates on a map of an empty sequence may answer [] or [(0, 0)]",
+    "FeatureMap indexing normalises slices like Python (negative and over-long bounds are clamped, _norm_index docstring); integer indices -len..len-1 are asserted (_norm_index documents s[-1] -> s[len(s)-1]), integers outside that range are not generated",
+    "negative / out-of-range INTEGER indices of IndelMap are not asserted: only IndexError for far-out-of-range negatives is pinned by the tests, the rest is undocumented (IndelMap[-1] answers an empty map, see findings)",
+    "an inner FeatureMap used as index has parent_length == len(outer) and non-empty spans inside [0, len(outer)]; spans reaching outside ('Display slices') are not generated",
+    "a tuple/list of Span objects used as index carries forward spans only (as_map drops the reverse flag of a bare Span; Feature.without_lost_spans passes nongap() spans, which are forward)",
+    "FeatureMap.nucleic_reversed documents that the reverse attribute of spans is discarded: every reflected span is expected forward, spans in reverse order",
+    "FeatureMap.get_coordinates: the docstring allows (end, start) for reversed maps while the code answers (start, end); only the pair of boundaries is compared",
+    "FeatureMap.get_gap_coordinates is not checked (it reads .end of the preceding span, undefined after a lost span / for unordered maps)",
+    "zeroed / get_covering_span / inverse / shadow are skipped inside histories when an earlier step produced a zero-length span (start/end and overlap tests of the library count such spans)",
+    "FeatureMap division is only driven as (m * 3) / 3 (LostSpan.__truediv__ asserts divisibility by 3 whatever the scale)",
+    "inside histories the partition of a feature map into spans is read from the (already verified) object when nucleic_reversed is modelled, because reflection works span by span",
 ]
 
 RES = "ABCDEFGHIJKLMNOPQRSTUVWXYZabcdefghijklmnopqrstuvwxyz0123456789" * 4
@@ -877,7 +897,13 @@ def exec_fmap(case) -> Soft:
     ok, z = s.call("zeroed", m.zeroed)
     if ok:
         lo = min(real)
-        s.eq(positions(z), [None if i is None else i - lo for i in idx], "zeroed/positions", str(case))
+        want = [None if i is None else i - lo for i in idx]
+        if s.eq(positions(z), want, "zeroed/positions", str(case)):
+            # the zeroed map re-enters serialisation (same clause as in the histories below)
+            ok, zrt = s.call("after-zeroed/serialise", lambda: FeatureMap.from_rich_dict(json.loads(z.to_json())))
+            if ok:
+                s.eq(positions(zrt), want, "after-zeroed/serialise/positions", str(case))
+                fm_in_parent(s, zrt, int(zrt.parent_length), "after-zeroed/serialise/in-parent")
     ok, rt = s.call("rich_dict", lambda: FeatureMap.from_rich_dict(json.loads(m.to_json())))
     if ok:
         s.eq(positions(rt), idx, "rich_dict/positions", str(case))
@@ -902,6 +928,7 @@ def exec_fmap(case) -> Soft:
     # histories: every result re-enters the next operation and is compared again
     cur = (m, idx, P)
     zeroed = False
+    s.evals = 14 + len(case.get("ops", []))
     for step, op in enumerate(case.get("ops", [])):
         nxt = fmap_step(s, cur[0], cur[1], cur[2], op, "chain/", after_zeroed=zeroed)
         if nxt is None:
@@ -1211,8 +1238,8 @@ FUZZ = {
 }
 
 META = {
-    "technique": "exhaustive enumeration of gap layouts x intervals plus Hypothesis-generated layouts, map pairs and feature maps, against a unique-residue gapped-string model",
-    "level_text": "Every gap layout up to 7 columns (11 in the thorough tier) is enumerated with all in-range intervals, columns and residue indices and compared with a plain gapped string whose residues are unique, so a misplaced residue or gap is visible; construction routes, concatenation, scaling, reversal, gap merging/subtraction, segment joining and the FeatureMap algebra are compared with the same model on generated inputs. Exploration, not proof: layouts beyond the bound are sampled, not enumerated.",
-    "level_note": "Trusts the harness' string model (about 60 lines, no cogent3 code) and numpy. Out-of-range slice bounds and strides are outside the domain because IndelMap documents them as unsupported.",
+    "technique": "exhaustive enumeration of gap layouts x intervals plus Hypothesis-generated layouts, map pairs, feature maps (forward, reversed and lost spans) and operation histories, against a unique-residue gapped-string model and explicit index lists",
+    "level_text": "Every gap layout up to 7 columns (11 in the thorough tier) is enumerated with all in-range intervals, columns and residue indices and compared with a plain gapped string whose residues are unique, so a misplaced residue or gap is visible; every construction route answers the accessors and re-enters merge_maps; concatenation, scaling, reversal, gap merging/subtraction, segment joining and the FeatureMap algebra (incl. reversed spans, composition m[inner] with forward/reversed/lost inner spans, lists of slices, integer indices, scaling) are compared with the same model on generated inputs, and generated histories of 2-5 operations (IndelMap -> ... -> to_feature_map -> inverse -> slice etc.) are compared after every step. Exploration, not proof: layouts beyond the bound, feature maps and histories are sampled, not enumerated.",
+    "level_note": "Trusts the harness' string / index-list model (about 150 lines, no cogent3 code) and numpy. Out-of-range slice bounds, strides and negative integer indices of IndelMap are outside the domain because IndelMap documents them as unsupported or does not document them.",
     "design_ref": "DESIGN.md section 1, C08",
 }
